@@ -24,3 +24,13 @@ Proof.
   rewrite (H a). destruct b as [b|]; [rewrite (H b)|]; reflexivity.
 Qed.
 Print Assumptions C06_lookup_determines_find_out_reg.
+
+(* The model of the lowering (Compile/Lower.v, tied gate for gate to src/compile.rs on every
+   run) is a function of the typed program and the de-duplication option alone: it takes no
+   iteration order, no seed and no state from earlier compilations.  (The one hash-map
+   iteration left in the repaired mux_panic is shown order-irrelevant in C02.) *)
+From GV Require Import Lang.Ast Compile.Lower.
+Theorem C06_lowering_is_a_function : forall dedup P r1 r2,
+  lower_program dedup P = r1 -> lower_program dedup P = r2 -> r1 = r2.
+Proof. intros dedup P r1 r2 <- <-. reflexivity. Qed.
+Print Assumptions C06_lowering_is_a_function.
